@@ -224,7 +224,8 @@ def flip(data, bit):
 
 
 FAULTS = ["none", "bitflip-header", "bitflip-payload", "bitflip-signature", "signature-truncate", "signature-extend",
-          "signature-reencode", "splice", "splice-other-key", "structural", "key-substitution", "caller-payload", "respell-header"]
+          "signature-reencode", "splice", "splice-other-key", "structural", "key-substitution", "caller-payload", "respell-header",
+          "right-key-other-scheme"]
 
 
 def apply_fault(ctx, tok, kind, fault, alg, path, placement, stride=1, tag=""):
@@ -308,6 +309,45 @@ def apply_fault(ctx, tok, kind, fault, alg, path, placement, stride=1, tag=""):
             return None
         m["sig"] = new
         return f"signature #{m_idx} re-encoded {name}", None
+    if fault == "right-key-other-scheme":
+        # a signature made by the holder of the right key, over the right signing input, but not with the algorithm the header names
+        from cryptography.hazmat.primitives import hashes
+        from cryptography.hazmat.primitives.asymmetric import padding, ec
+        import hashlib
+        import hmac as _hmac
+        jwk = scen.key(kind, 2 * m_idx if path in GENERAL else 0)
+        seg = b64.enc(m["protected"]) if m["protected"] is not None else ""
+        msg = rjws.signing_input(seg, tok.payload, tok.b64mode)
+        H = {"256": hashes.SHA256, "384": hashes.SHA384, "512": hashes.SHA512}
+        if alg.startswith(("RS", "PS")):
+            h = H[alg[2:]]
+            key = rjwk.load(jwk, private=True)
+            max_salt = key.key_size // 8 - h.digest_size - 2
+            opts = [("pss-salt-0", padding.PSS(padding.MGF1(h()), 0), h), ("pss-salt-20", padding.PSS(padding.MGF1(h()), 20), h),
+                    ("pss-salt-digest+1", padding.PSS(padding.MGF1(h()), h.digest_size + 1), h), ("pss-salt-max", padding.PSS(padding.MGF1(h()), max_salt), h),
+                    ("pss-salt-digest", padding.PSS(padding.MGF1(h()), h.digest_size), h), ("pkcs1v15", padding.PKCS1v15(), h),
+                    ("pss-mgf1-sha1", padding.PSS(padding.MGF1(hashes.SHA1()), h.digest_size), h),
+                    ("other-hash", padding.PKCS1v15() if alg.startswith("RS") else padding.PSS(padding.MGF1(hashes.SHA512() if alg[2:] != "512" else hashes.SHA256()), 32), hashes.SHA512 if alg[2:] != "512" else hashes.SHA256)]
+            name, pad, hh = ctx.choose(tag + "scheme", opts)
+            if (alg.startswith("PS") and name == "pss-salt-digest") or (alg.startswith("RS") and name == "pkcs1v15"):
+                return None       # that is the named algorithm itself
+            m["sig"] = key.sign(msg, pad, hh())
+            return f"signature #{m_idx} made with the right key but as {name}", None
+        if alg in ES:
+            key = rjwk.load(jwk, private=True)
+            size = rjwk.CURVES[jwk["crv"]][1]
+            other = hashes.SHA512 if ES[alg][1] != "512" else hashes.SHA256
+            from ..ref.jwa import der_decode_sig
+            r_, s_ = der_decode_sig(key.sign(msg, ec.ECDSA(other(), deterministic_signing=True)))
+            m["sig"] = r_.to_bytes(size, "big") + s_.to_bytes(size, "big")
+            return f"signature #{m_idx} made with the right key but over another hash", None
+        if alg.startswith("HS"):
+            other = {"256": "sha512", "384": "sha256", "512": "sha256"}[alg[2:]]
+            want = {"256": 32, "384": 48, "512": 64}[alg[2:]]
+            mac = _hmac.new(b64.dec(jwk["k"]), msg, getattr(hashlib, other)).digest()
+            m["sig"] = (mac + mac)[:want]
+            return f"signature #{m_idx} is an HMAC with the right key but another hash", None
+        return None
     if fault in ("splice", "splice-other-key"):
         other_payload = b'{"iss":"eve","n":2}' if tok.b64mode else b"pay-999-to-eve"
         which = 1 if fault == "splice-other-key" else 0
@@ -333,7 +373,7 @@ def apply_fault(ctx, tok, kind, fault, alg, path, placement, stride=1, tag=""):
         if path in ("flattened", "7797-flattened"):
             opts += ["add-empty-signatures-member"]
         if json_path:
-            opts += ["remove-payload", "move-alg-to-other-header", "move-typ-out-of-protected"]
+            opts += ["remove-payload", "move-alg-to-other-header", "move-typ-out-of-protected", "insert-empty-protected-object", "insert-empty-protected-object-spaced"]
         if path in ("compact", "flattened", "general"):
             opts += ["unprotected-b64-false" if json_path else "none-alg", "none-alg"]
         if path.startswith("7797"):
@@ -366,6 +406,13 @@ def apply_fault(ctx, tok, kind, fault, alg, path, placement, stride=1, tag=""):
                     p["alg"] = h.pop("alg")
                 mm["protected"] = rjws.hdr_json(p).encode() if p else None
                 mm["header"] = h or None
+        elif edit.startswith("insert-empty-protected-object"):
+            # only where the signer sent no protected member at all: the signing input then starts with an empty segment, not with BASE64URL("{}")
+            if not any(mm["protected"] is None for mm in tok.members):
+                return None
+            for mm in tok.members:
+                if mm["protected"] is None:
+                    mm["protected"] = b"{}" if not edit.endswith("spaced") else b"{ \n}"
         elif edit == "move-typ-out-of-protected":
             for mm in tok.members:
                 p = json.loads(mm["protected"]) if mm["protected"] is not None else {}
